@@ -54,8 +54,8 @@ func Fails(kind int) bool { return kind != BPass }
 
 type permissiveErr struct{}
 
-func (permissiveErr) Error() string   { return "permissive error" }
-func (permissiveErr) Is(error) bool   { return true }
+func (permissiveErr) Error() string { return "permissive error" }
+func (permissiveErr) Is(error) bool { return true }
 
 type someStruct struct {
 	A int
